@@ -1,4 +1,258 @@
-(* C15 - property theorems (placeholder while the proofs are being written) *)
-From Coq Require Import List NArith ZArith Bool.
-From HV Require Import Base.BSet Attr.Cpukinds.
+(* C15 - CPU kinds always partition the registered PUs and are ranked consistently.
+
+   Model: Attr/Cpukinds.v (hwloc/cpukinds.c statement by statement, the kinds
+   array with its capacity and the bytes left in unused slots).  A history is
+   a list of public operations (hwloc_cpukinds_register with arbitrary
+   arguments, the cpukinds part of hwloc_topology_restrict, refresh, dup, XML
+   export+import), each with the value of HWLOC_CPUKINDS_RANKING at that time.
+   [ghost [] h] is the list of effective registrations of h: the accepted
+   register calls, their cpusets intersected with every later restriction.
+
+   Every statement is for ALL states / histories / cpusets (finite or infinite) /
+   forced efficiencies / info arrays, unless a hypothesis says otherwise. *)
+From Coq Require Import String.
+From Coq Require Import List NArith ZArith Bool Sorted Permutation Lia ZifyNat ZifyN.
+From HV Require Import Base.BSet Gen.Tables Attr.Cpukinds Attr.CpukindsProofs.
 Import ListNotations.
+Local Open Scope Z_scope.
+Arguments lit s%string_scope.
+
+(* ---- registration ---- *)
+
+(* hwloc_internal_cpukinds_register (flag OVERWRITE_FORCED_EFFICIENCY, as the
+   public entry point and the XML importer pass it) preserves the invariant
+   [Inv]: every kind is non-empty, included in or disjoint from every
+   effective registration, carries exactly the info pairs of the registrations
+   covering it without exact duplicates, has the forced efficiency of the last
+   registration covering it; every PU is in exactly one kind if registered
+   and in none otherwise. *)
+Theorem register_inv : forall regs st cs forced infos flags st',
+  Inv regs st ->
+  internal_register st cs forced infos flags = IOk st' ->
+  (N.land flags OVERWRITE =? 0)%N = false ->
+  Inv (R cs forced (infos_of infos) :: regs) st'.
+Proof. exact internal_register_inv. Qed.
+Print Assumptions register_inv.
+
+(* the invariant in plain words: non-empty, pairwise disjoint, union = union of the registrations *)
+Theorem register_union : forall regs st, Inv regs st ->
+  (forall k, In k (kinds st) -> bs_is_empty (k_cpuset k) = false) /\
+  (forall i j a b, i <> j -> nth_error (kinds st) i = Some a -> nth_error (kinds st) j = Some b ->
+                   bs_intersects (k_cpuset a) (k_cpuset b) = false) /\
+  (forall p, (exists k, In k (kinds st) /\ mem p (k_cpuset k) = true) <-> registered regs p = true).
+Proof. exact Inv_partition. Qed.
+Print Assumptions register_union.
+
+(* no slot index outside the allocated array (whatever the state, even a
+   corrupted one); at most nr+1 kinds are added and 2*nr+1 slots exist; the
+   undefined shift 1U<<32 of the capacity computation needs 2^29 kinds *)
+Theorem register_in_bounds : forall st cs forced infos flags,
+  internal_register st cs forced infos flags <> IFatal F_OOB /\
+  (internal_register st cs forced infos flags = IFatal F_UB -> (2 ^ 29 <= N.of_nat (length (kinds st)))%N) /\
+  (forall st', internal_register st cs forced infos flags = IOk st' ->
+     (length (kinds st) <= length (kinds st') <= 2 * length (kinds st) + 1)%nat /\
+     (2 * length (kinds st) + 1 <= nr_allocated st')%nat /\
+     (nr_allocated st <= nr_allocated st')%nat).
+Proof. exact internal_register_bounds. Qed.
+Print Assumptions register_in_bounds.
+
+(* EINVAL exactly for non-zero flags, NULL or empty cpuset; the state is untouched *)
+Theorem register_einval : forall env st cs f i fl,
+  (fl <> 0%N \/ cs = None \/ cs = Some bs_empty) <-> pub_register env st cs f i fl = Fine st RC_EINVAL.
+Proof. exact pub_register_einval. Qed.
+Print Assumptions register_einval.
+
+(* ---- restrict ---- *)
+Theorem restrict_inv : forall env regs st t,
+  Inv regs st -> Inv (map (restrict_reg t) regs) (restrict_state env st t).
+Proof. exact restrict_state_inv. Qed.
+Print Assumptions restrict_inv.
+
+(* ---- histories ---- *)
+
+(* REFUTED as a total statement: a registration that follows a restrict which
+   removed a kind builds the new kind on the stale bytes of the vacated slot
+   (infos array pointer aliasing a live kind's array, or dangling).  Replayed
+   on the C code: corpus/c15/stale_after_*.case (ASan double free / use after free). *)
+Definition stale_witness : list (option str * op) :=
+  [ (None, OpRegister (Some (bs_of_N 1)) (-1) (Some [(lit "a", lit "1")]) 0%N);
+    (None, OpRegister (Some (bs_of_N 6)) (-1) (Some [(lit "b", lit "2")]) 0%N);
+    (None, OpRestrict (bs_of_N 14));
+    (None, OpRegister (Some (bs_of_N 8)) (-1) (Some [(lit "c", lit "3")]) 0%N) ].
+Theorem history_safe_refuted : exists h, run init_state h = Fatal F_STALE.
+Proof. exists stale_witness. vm_compute. reflexivity. Qed.
+Print Assumptions history_safe_refuted.
+
+(* same after a dup, with no infos at all (every duplicated kind owns an array) *)
+Definition stale_witness_dup : list (option str * op) :=
+  [ (None, OpRegister (Some (bs_of_N 1)) (-1) None 0%N);
+    (None, OpDup);
+    (None, OpRestrict (bs_of_N 14));
+    (None, OpRegister (Some (bs_of_N 4)) (-1) None 0%N) ].
+Theorem history_safe_dup_refuted : run init_state stale_witness_dup = Fatal F_STALE.
+Proof. vm_compute. reflexivity. Qed.
+Print Assumptions history_safe_dup_refuted.
+
+(* ... and that is the only way to fail: every history either ends in that
+   memory error (or in the 2^29-kinds shift) or leaves a state satisfying the
+   invariant w.r.t. its effective registrations *)
+Theorem history_inv_partial : forall h st rc,
+  run init_state h = Fine st rc -> Inv (ghost [] h) st.
+Proof. intros h st rc H. apply (run_inv_all h [] init_state st rc init_inv H). Qed.
+Print Assumptions history_inv_partial.
+
+(* the class of histories that cannot hit the stale slot: no register after a
+   restrict unless a dup or an XML reload came in between *)
+Theorem history_safe_partial : forall h, stale_free false h = true -> run init_state h <> Fatal F_STALE.
+Proof. intros h H. apply (run_stale_free h init_state false); [intros _; constructor|exact H]. Qed.
+Print Assumptions history_safe_partial.
+
+Theorem history_in_bounds : forall h st, run st h <> Fatal F_OOB.
+Proof. exact run_no_oob. Qed.
+Print Assumptions history_in_bounds.
+
+Theorem history_no_undefined_shift : forall h, no_xml h -> (length h <= 29)%nat -> run init_state h <> Fatal F_UB.
+Proof.
+  intros h Hx Hl. apply run_no_ub; [exact Hx|].
+  change (N.of_nat (length (kinds init_state)) + 1)%N with 1%N. rewrite N.mul_1_l.
+  apply N.pow_le_mono_r; [discriminate|lia].
+Qed.
+Print Assumptions history_no_undefined_shift.
+
+(* ---- hwloc_cpukinds_get_by_cpuset ---- *)
+(* under the invariant: the index of the kind containing the set; EXDEV iff no
+   kind contains it but some kind meets it; ENOENT iff it meets none; never EINVAL for a non-empty set *)
+Theorem get_by_cpuset_exact : forall regs st q,
+  Inv regs st -> bs_is_empty q = false ->
+  match get_by_cpuset st (Some q) 0%N with
+  | G_OK j => exists k, nth_error (kinds st) j = Some k /\ bs_subset q (k_cpuset k) = true
+  | G_EXDEV => (forall k, In k (kinds st) -> bs_subset q (k_cpuset k) = false) /\
+               (exists k, In k (kinds st) /\ bs_intersects q (k_cpuset k) = true)
+  | G_ENOENT => forall k, In k (kinds st) -> bs_intersects q (k_cpuset k) = false
+  | G_EINVAL => False
+  end.
+Proof.
+  intros regs st q HI Hq. unfold get_by_cpuset. simpl. rewrite Hq.
+  destruct (Inv_partition regs st HI) as [P1 _].
+  pose proof (getby_loop_spec q (kinds st) 0 Hq) as G.
+  assert (H1 : Forall (fun k => bs_is_empty (k_cpuset k) = false) (kinds st)) by (apply Forall_forall; exact P1).
+  assert (H2 : forall p, (cnt (kinds st) p <= 1)%nat).
+  { intros p. rewrite (inv_part _ _ HI). destruct (registered regs p); simpl; auto. }
+  specialize (G H1 H2). destruct (getby_loop q (kinds st) 0); auto.
+  destruct G as [i [k [-> G]]]. exists k. exact G.
+Qed.
+Print Assumptions get_by_cpuset_exact.
+
+Theorem get_by_cpuset_einval : forall st q fl,
+  (fl <> 0%N \/ q = None \/ q = Some bs_empty) -> get_by_cpuset st q fl = G_EINVAL.
+Proof.
+  intros st q fl H. unfold get_by_cpuset. destruct (N.eqb_spec fl 0) as [->|Hf]; simpl; [|reflexivity].
+  destruct H as [H|[->| ->]]; [contradiction|reflexivity|reflexivity].
+Qed.
+Print Assumptions get_by_cpuset_einval.
+
+(* ---- ranking ---- *)
+(* after hwloc_internal_cpukinds_rank, for every strategy / environment value:
+   efficiency = index for all kinds, or all efficiencies unknown *)
+Theorem efficiencies_all_unknown_or_permutation : forall env ks,
+  ranked (rank_kinds env ks) \/ unranked (rank_kinds env ks).
+Proof. exact rank_kinds_effs. Qed.
+Print Assumptions efficiencies_all_unknown_or_permutation.
+
+(* ... and so after every history *)
+Theorem history_efficiencies : forall h st rc,
+  run init_state h = Fine st rc -> ranked (kinds st) \/ unranked (kinds st).
+Proof.
+  intros h st rc H. apply (run_effs h init_state st rc); [|exact H].
+  left. intros [|i] k; discriminate.
+Qed.
+Print Assumptions history_efficiencies.
+
+(* ranking only permutes the kinds; when efficiencies are known the kinds are
+   in strictly increasing order of their ranking values *)
+Theorem rank_permutes : forall env ks, Permutation (map core (rank_kinds env ks)) (map core ks).
+Proof. exact rank_kinds_core. Qed.
+Print Assumptions rank_permutes.
+Theorem ranked_consistently : forall env ks, (2 <= length ks)%nat -> ranked (rank_kinds env ks) ->
+  StronglySorted Z.lt (map k_rank (rank_kinds env ks)).
+Proof. exact rank_kinds_sorted. Qed.
+Print Assumptions ranked_consistently.
+
+(* forced efficiencies all known and distinct (as 64-bit ranking values), default or
+   forced_efficiency strategy: efficiency = index and the order follows the forced efficiencies *)
+Theorem forced_ranking_respected : forall env ks,
+  heur_of_env env = H_DEFAULT \/ heur_of_env env = H_FORCED ->
+  (2 <= length ks)%nat ->
+  Forall (fun k => k_forced k <> UNKNOWN) ks ->
+  NoDup (map (fun k => u64 (k_forced k)) ks) ->
+  ranked (rank_kinds env ks) /\
+  StronglySorted Z.lt (map (fun k => u64 (k_forced k)) (rank_kinds env ks)).
+Proof. exact rank_kinds_forced. Qed.
+Print Assumptions forced_ranking_respected.
+
+(* ---- XML export + import ---- *)
+Theorem xml_reload_same_kinds : forall env regs st st' rc,
+  Inv regs st -> xml_reload env st = Fine st' rc ->
+  kinds st' = rank_kinds env (map fresh (kinds st)) /\ Inv regs st'.
+Proof.
+  intros env regs st st' rc HI H. split; [eapply xml_reload_kinds; eauto|eapply xml_reload_inv; eauto].
+Qed.
+Print Assumptions xml_reload_same_kinds.
+
+(* ---- non-vacuity ---- *)
+(* a history with a split (INTERSECTS), a merge (CONTAINS), an inclusion, a
+   restrict that removes a kind, a dup and a registration after it: it runs
+   without fatal outcome, so history_inv_partial / history_efficiencies apply to a
+   state with 6 kinds *)
+Definition example_history : list (option str * op) :=
+  [ (None, OpRegister (Some (bs_of_N 3)) 5 (Some [(lit "CoreType", lit "IntelAtom")]) 0%N);
+    (None, OpRegister (Some (bs_of_N 6)) 2 (Some [(lit "x", lit "1"); (lit "x", lit "1")]) 0%N);   (* INTERSECTS *)
+    (None, OpRegister (Some (bs_of_N 12)) 8 None 0%N);                                             (* CONTAINS + remainder *)
+    (None, OpRegister (Some (bs_of_N 8)) 1 (Some [(lit "y", lit "2")]) 0%N);                       (* EQUAL *)
+    (None, OpRegister (Some (bs_of_N 240)) 6 None 0%N);                                            (* DIFFERENT *)
+    (None, OpRegister (Some (bs_of_N 32)) 3 None 0%N);                                             (* INCLUDED *)
+    (Some (lit "forced_efficiency"), OpRestrict (bs_of_N 254));                                   (* removes kind {0} *)
+    (None, OpDup);
+    (None, OpRegister (Some (BS 255 true)) 7 None 0%N);                                            (* infinite cpuset *)
+    (None, OpRegister None 0 None 0%N);                                                            (* EINVAL *)
+    (None, OpXml) ].
+Example example_history_runs :
+  exists st, run init_state example_history = Fine st RC_OK /\ length (kinds st) = 6%nat /\
+             stale_free false example_history = true /\ no_xml (firstn 10 example_history) /\
+             map k_eff (kinds st) = [0; 1; 2; 3; 4; 5] /\ map k_forced (kinds st) = [1; 2; 3; 6; 7; 8].
+Proof.
+  eexists. split; [vm_compute; reflexivity|]. split; [reflexivity|]. split; [reflexivity|].
+  split; [|split; reflexivity]. repeat constructor; discriminate.
+Qed.
+
+(* hypotheses of forced_ranking_respected are met by a concrete list, and the conclusion is not trivial *)
+Example example_forced :
+  let ks := [K (bs_of_N 1) 0 7 0 [] false; K (bs_of_N 2) 0 3 0 [] false; K (bs_of_N 4) 0 5 0 [] false] in
+  heur_of_env None = H_DEFAULT /\ Forall (fun k => k_forced k <> UNKNOWN) ks /\
+  NoDup (map (fun k => u64 (k_forced k)) ks) /\
+  map k_forced (rank_kinds None ks) = [3; 5; 7] /\ map k_eff (rank_kinds None ks) = [0; 1; 2].
+Proof.
+  simpl. split; [reflexivity|]. split; [repeat constructor; discriminate|].
+  split; [|split; vm_compute; reflexivity].
+  vm_compute. repeat constructor; simpl; intuition discriminate.
+Qed.
+
+(* ranking by info: core type and frequency; duplicate ranking values => all unknown *)
+Example example_info_ranking :
+  let a := K (bs_of_N 1) 0 (-1) 0 [(lit "CoreType", lit "IntelCore"); (lit "FrequencyMaxMHz", lit "3000")] true in
+  let b := K (bs_of_N 2) 0 (-1) 0 [(lit "CoreType", lit "IntelAtom"); (lit "FrequencyMaxMHz", lit "3000")] true in
+  map k_cpuset (rank_kinds None [a; b]) = [bs_of_N 2; bs_of_N 1] /\
+  map k_eff (rank_kinds None [a; b]) = [0; 1] /\
+  map k_eff (rank_kinds (Some (lit "frequency")) [a; b]) = [-1; -1] /\
+  map k_eff (rank_kinds (Some (lit "none")) [a; b]) = [-1; -1].
+Proof. vm_compute. repeat split; reflexivity. Qed.
+
+(* get_by_cpuset: the three outcomes occur *)
+Example example_get_by_cpuset :
+  let st := St [K (bs_of_N 3) 0 0 0 [] false; K (bs_of_N 12) 1 0 0 [] false] [] in
+  get_by_cpuset st (Some (bs_of_N 8)) 0%N = G_OK 1%nat /\
+  get_by_cpuset st (Some (bs_of_N 6)) 0%N = G_EXDEV /\
+  get_by_cpuset st (Some (bs_of_N 28)) 0%N = G_EXDEV /\
+  get_by_cpuset st (Some (bs_of_N 48)) 0%N = G_ENOENT /\
+  get_by_cpuset st (Some bs_empty) 0%N = G_EINVAL.
+Proof. vm_compute. repeat split; reflexivity. Qed.
